@@ -417,7 +417,8 @@ Definition build (type_ : cls) (r : result (list val)) : result val :=
 Definition wrap1 (r : result val) : result val :=
   match r with Ok x => Ok (VList [x]) | Err e => Err e end.
 
-Definition is_vstr (v : val) : bool := match v with VStr _ => true | _ => false end.
+(* isinstance(obj, (str, bytes)) *)
+Definition is_vstr (v : val) : bool := match v with VStr _ | VBytes _ => true | _ => false end.
 
 (* coerce_sequence / coerce_tuple with a (t, ...) pattern, reached through expand_and_coerce:
    [f] is expand_and_coerce on the item pattern *)
